@@ -16,7 +16,9 @@ EXTENDS GenProg, ExprEmit, ExprSem, Json, IOUtils
 RECURSIVE ColsOf(_)
 UnionOver(es) == UNION {ColsOf(es[i]) : i \in DOMAIN es}
 ColsOf(e) ==
-  CASE e.k = "QIdent" -> IF Len(e.parts) = 1 /\ e.parts[1].name \notin {"true", "false", "null"} THEN {e.parts[1].name} ELSE {}
+  CASE e.k = "QIdent" -> IF Len(e.parts) = 1 /\ e.parts[1].name \notin {"true", "false", "null"} THEN {e.parts[1].name}
+                         ELSE IF Len(e.parts) = 2 THEN {e.parts[1].name \o "." \o e.parts[2].name}   \* alias-qualified column
+                         ELSE {}
     [] e.k = "Lit" -> {}
     [] e.k \in {"Un", "Paren"} -> ColsOf(e.x)
     [] e.k = "Bin" -> ColsOf(e.x) \cup ColsOf(e.y)
@@ -63,7 +65,7 @@ NoSignFusion(ts) ==
   \A i \in 1..(Len(ts) - 1) : ~(ts[i] = OP("-") /\ ts[i + 1] = OP("-") /\ PrefixPos(ts, i))
 
 \* join conditions are compared by truth (see DESIGN.md, C03)
-SameAt(pos, a, b) == IF pos \in {"joinOn", "joinOn2"} THEN CoalesceF(a) = CoalesceF(b) ELSE a = b
+SameAt(pos, a, b) == IF pos \in {"joinOn", "joinOn2"} THEN TruthNF(a) = TruthNF(b) ELSE a = b
 
 Tables == {"ch", "pg"}
 
